@@ -425,3 +425,58 @@ def name_mandatory(src, lib, rng, p=(1, 2)):
         out += text[i:m.end()] + new_inner + ')'
         i = j
     return out.encode('utf-8')
+
+
+_ARG_LIT = re.compile(r'(?P<pre>[(,:]\s*)(?P<lit>"[^"\n]*"|\d+\.\d+\.\d+\.\d+(?::\d+)?|0x[0-9a-fA-F]+|\d+)(?P<post>\s*[,)])')
+
+
+def hoist_literals(src, rng, p=(1, 3)):
+    """Semantics-preserving rewrite (C14: a let-bound plain value and its defining expression are interchangeable): literal
+    arguments of single-line statements are bound by a `let` placed before the statement and passed by name.  The value is then
+    a shared, still-referenced object when the callee receives it - and it stays bound afterwards."""
+    try:
+        lines = src.decode('utf-8').split('\n')
+    except UnicodeDecodeError:
+        return src
+    out, n = [], 0
+    for l in lines:
+        st = l.strip()
+        if not st.endswith(';') or st.startswith(('import ', '#', '//')) or '#' in l or '//' in l or l.count('"') % 2:
+            out.append(l); continue
+        lets = []
+        def rep(m):
+            nonlocal n
+            # never inside a string literal: an even number of quotes must precede the match
+            if l[:m.start('lit')].count('"') % 2 or not rng.chance(*p): return m.group(0)
+            # `name: value` only when the colon is an argument name, not a socket port (digit before it)
+            pre = m.group('pre')
+            if pre.startswith(':') and (m.start() == 0 or not (l[m.start() - 1].isalnum() or l[m.start() - 1] == '_') or l[m.start() - 1].isdigit()): return m.group(0)
+            n += 1
+            lets.append('let hoist%d = %s;' % (n, m.group('lit')))
+            return '%shoist%d%s' % (pre, n, m.group('post'))
+        l2 = _ARG_LIT.sub(rep, l)
+        out.extend(lets); out.append(l2)
+    return '\n'.join(out).encode('utf-8')
+
+
+_INT_ARG = re.compile(r'(?P<pre>(?:[(,]|[A-Za-z_]\w*:)\s*)(?P<n>\d+)(?P<post>\s*[,)])')
+
+
+def respell_ints(src, rng, p=(1, 2)):
+    """Semantics-preserving rewrite (C17: every spelling of an integer literal denotes its value): decimal integer arguments are
+    respelled in hex (either case), zero-padded hex or zero-padded decimal.  Socket ports (`ip:port`) are left alone."""
+    try:
+        text = src.decode('utf-8')
+    except UnicodeDecodeError:
+        return src
+    out = []
+    for l in text.split('\n'):
+        if '#' in l or '//' in l:
+            out.append(l); continue
+        def rep(m):
+            if l[:m.start('n')].count('"') % 2 or not rng.chance(*p): return m.group(0)
+            v = int(m.group('n'))
+            if v >= 2 ** 64: return m.group(0)
+            return m.group('pre') + rng.choice(['0x%x', '0x%X', '0x%04X', '0x000%x', '00%d', '0x%016x']) % v + m.group('post')
+        out.append(_INT_ARG.sub(rep, l))
+    return '\n'.join(out).encode('utf-8')
